@@ -529,6 +529,38 @@ def dem_section(ctx: Ctx):
                           f"Stim gives `{str(want)}`", {"text": text, "tsim": str(got), "stim": str(want)})
 
 
+REPEATED = [
+    # (key, text, det): one instruction naming the same target several times (broadcast applies it that many times; a record named an
+    # even number of times drops out of a parity)
+    ("DETECTOR rec twice", "H 0\nM 0\nDETECTOR rec[-1] rec[-1]", True),
+    ("DETECTOR rec twice among others", "X 0\nH 1\nM 0 1 2\nDETECTOR rec[-3] rec[-2] rec[-2] rec[-1]\nDETECTOR rec[-3] rec[-3] rec[-3]", True),
+    ("OBSERVABLE_INCLUDE rec twice", "X 0\nH 1\nM 0 1\nOBSERVABLE_INCLUDE(0) rec[-2] rec[-1] rec[-1]\nOBSERVABLE_INCLUDE(1) rec[-2] rec[-2]", True),
+    ("OBSERVABLE_INCLUDE rec twice over two instructions", "X 0\nM 0\nOBSERVABLE_INCLUDE(0) rec[-1]\nOBSERVABLE_INCLUDE(0) rec[-1]\nDETECTOR rec[-1]", True),
+    ("H twice", "H 0 0\nM 0", False), ("S twice", "H 0\nS 0 0\nH 0\nM 0", False), ("SQRT_X three times", "SQRT_X 0 0 0\nS 0\nSQRT_X 0\nM 0", False),
+    ("X_ERROR twice", "X_ERROR(0.25) 0 0\nM 0", False), ("M twice", "H 0\nM 0 0 !0", False), ("MR twice", "X 0\nMR 0 0\nM 0", False),
+    ("CX pair twice", "H 0\nCX 0 1 0 1\nM 0 1", False), ("CX rec twice", "H 0\nM 0\nCX rec[-1] 1 rec[-1] 1 rec[-1] 2\nM 1 2", False),
+    ("S_DAG three times", "H 0\nS_DAG 0 0 0\nH_YZ 0\nM 0", False), ("DEPOLARIZE1 twice", "DEPOLARIZE1(0.25) 0 0\nM 0", False),
+]
+
+
+def repeated_section(ctx: Ctx):
+    """targets repeated inside one instruction: read as Stim reads them (every occurrence counts)"""
+    for key, text, det in REPEATED:
+        res = _run_probe((key, "det" if det else "zz", text, det, 0, 0))
+        ctx.count(("repeated", key), nontrivial=True, bucket="repeated-targets")
+        replay = {"row": key, "instruction": key, "probes": {("det" if det else "zz"): text}}
+        if res["impl"] == "raise":
+            continue          # loud
+        if res["impl"] == "sample-error":
+            ctx.violation("repeated " + key, f"`{text}` compiles but sampling fails: {res.get('error')}", replay)
+        elif res.get("ref") != "ok":
+            ctx.broken.append(f"reference: no reference for the repeated-target probe `{key}`: {res.get('ref_why')}")
+        elif res.get("diff", 0.0) > TOL:
+            w = res.get("worst")
+            ctx.violation("repeated " + key, f"a target named several times in one instruction is not read as Stim reads it: `{text}` differs from "
+                          f"Stim's semantics by {res['diff']:.4g} (outcome {w[0]}: tsim {w[1]:.6g}, reference {w[2]:.6g})", replay)
+
+
 def run(ctx: Ctx) -> int:
     t0 = time.time()
     rows = build_vocab()
@@ -589,6 +621,10 @@ def run(ctx: Ctx) -> int:
         dem_section(ctx)
     except Exception as e:
         ctx.broken.append(f"dem-section: {type(e).__name__}: {e}")
+    try:
+        repeated_section(ctx)
+    except Exception as e:
+        ctx.broken.append(f"repeated-section: {type(e).__name__}: {e}")
     if ctx.broken:
         ctx.log("broken ties:", ctx.broken[:6])
         report_broken_without_input(ctx)
